@@ -101,6 +101,14 @@ def run_case(case):
                                    f"{obs['serial']} call {j}: battery block supported and battery mode != 0 but "
                                    f"battery sensors are absent"))
             break
+    if fam == "ET" and case["flags"][3] and (case["tag"] in configs.REF_745 or configs.POWERS[case["power"]][1] >= 15000):
+        # 'supported ones are all present': a 745-platform / >= 15 kW model whose inverter serves the MPPT block
+        last = [p for p in obs["polls"] if p["rec"]["outcome"] == "result"]
+        if last and "ppv_total" not in last[-1]["rec"]["value"] and not violations:
+            violations.append(viol("C15:supported-block-dropped:ET:mppt",
+                                   f"{obs['serial']} (tag {case['tag']}, {configs.POWERS[case['power']][1]} W) flags="
+                                   f"{case['flags']}: the inverter serves the MPPT block but its sensors are absent from "
+                                   f"the last result"))
     world.events = []
     world.log("summary", fam, obs["serial"], case["flags"], outcomes, [len(p["sensor_ids"]) for p in obs["polls"]])
     sig = (fam, case["tag"], case["power"], tuple(case["flags"]), tuple(case["battery_modes"]))
